@@ -2,16 +2,17 @@ import TH.Safe
 /-! Line-protocol driver for thread interleavings (slice T, C16).
 
     X <id> <p|o>                     variant of the description-context test: pinned (lock held by anybody) / owner
-    T <tid> <act>*                   B (beginBuild) | R<f> (record) | E (endBuild) | F<f> (callFn) | D<d> (callDag)
+    T <tid> <act>*                   B (beginBuild) | R<f> (record) | E (endBuild) | A (the describing function raises) | F<f> (callFn) | D<d> (callDag)
     S <tid>*                         the schedule
     E
-    -> <id> <tid> <obs>*             U | REF | BUILT:<f>,<f>… | FN<f> | DAG<d>
+    -> <id> <tid> <obs>*             U | REF | BUILT:<f>,<f>… | FAILED | FN<f> | DAG<d>
 -/
 open TH
 
 def parseAct (s : String) : Option Act :=
   if s == "B" then some .beginBuild
   else if s == "E" then some .endBuild
+  else if s == "A" then some .abortBuild
   else if s.startsWith "R" then (s.drop 1).toNat?.map .record
   else if s.startsWith "F" then (s.drop 1).toNat?.map .callFn
   else if s.startsWith "D" then (s.drop 1).toNat?.map .callDag
@@ -20,6 +21,7 @@ def parseAct (s : String) : Option Act :=
 def showObs : Obs → String
   | .unit => "U"
   | .gotRef => "REF"
+  | .buildFailed => "FAILED"
   | .built t => "BUILT:" ++ ",".intercalate (t.map toString)
   | .ranFn f => s!"FN{f}"
   | .ranDag d => s!"DAG{d}"
